@@ -399,6 +399,36 @@ def regfile_shard(shard):
     return part
 
 
+def redeclare_shard(shard):
+    """An array address declared again with another length (shorter, equal, longer), returned to the host before and after:
+    the host-visible array is the controller's array, with nothing left over from the earlier declaration."""
+    part = new_part()
+    for l1 in (1, 2, 3, 4):
+        for l2 in (1, 2, 3, 4):
+            for fill in (False, True):
+                for split in (False, True):
+                    first = [("set", [R(1), l1]), ("array", [R(1), ("addr", 3)])]
+                    if fill:
+                        for k in range(l1):
+                            first += [("set", [R(0), k]), ("set", [C(0), 10 + k]), ("store", [C(0), ("entry", 3, R(0))])]
+                    first += [("ret_arr", [("addr", 3)])]
+                    second = [("set", [R(1), l2]), ("array", [R(1), ("addr", 3)]), ("set", [R(0), 0]), ("set", [C(0), 21]),
+                              ("store", [C(0), ("entry", 3, R(0))]), ("ret_arr", [("addr", 3)])]
+                    ex = fresh_executor()
+                    run_real(ex, SETUP)
+                    progs = [first, second] if split else [first + second]
+                    for prog in progs:
+                        ref_state = ref_from_snapshot(snapshot(ex))
+                        case = {"kind": "program", "setup": SETUP, "program": prog, "after": (first if (split and prog is second) else [])}
+                        part["evals"] += 1
+                        cls, _ = compare_step(ex, prog, ref_state, case, part, "array-redeclared")
+                        part["transitions"] += 1
+                        if cls == "normal":
+                            part["distinct"] += 1
+                            count(part, "array-redeclared-programs")
+    return part
+
+
 def _det(hist):
     return key_of(snapshot(build(hist)))
 
@@ -416,6 +446,8 @@ def run(ctx):
             shards.append((n, first, reduced))
     res = ctx.pmap(programs_shard, shards)
     res += ctx.pmap(regfile_shard, [("regs", bk, i) for bk in "RCQM" for i in range(16)])
+    res += ctx.pmap(redeclare_shard, [("redeclare",)])
+    ctx.require("array-redeclared-programs", 64)
     ctx.require("register-file-programs", 64 * 64 * 2)
     ctx.total["states"] += sum(r["distinct"] for r in res)   # each non-unspecified program ends in one explored final state
     ctx.extra["program_lengths"] = [n for n, _ in plens]
@@ -450,5 +482,7 @@ def replay(case, part):
     else:
         ex = fresh_executor()
         run_real(ex, SETUP)
+        if case.get("after"):
+            run_real(ex, fix(case["after"]))       # an earlier subroutine of the same application
         ref_state = ref_from_snapshot(snapshot(ex))
         compare_step(ex, fix(case["program"]), ref_state, case, part, "program")
